@@ -5,6 +5,13 @@ from the live enums; (ii) correspondence — every parser is run on every member
 lower-case spellings, near misses and random strings, and compared with the Lean model; (iii) oracle —
 the property itself evaluated on the real return values (identity of the member, rejection or the
 documented fallback otherwise, string-or-enum call sites).
+
+String-or-enum call sites include EVERY key-taking access path of `TransformDict` (kind `key_site`): the methods are enumerated
+from `dir(TransformDict)`; `get`, `[]`, `in`, `load_key`, `transform`, `[]=`, `del`, `pop`, `setdefault` are called the way they are
+meant to be, anything else with the key as its only argument; the key is given as pair / list / TransformKey in the spellings
+lower / upper / member / mixed(str, member) / a name that is no frame.  On a registry built for the case the answer and the keys held
+afterwards must be those of the same call with `TransformKey(member, member)`; a non-frame name must never be answered positively.
+The model (`transform_key`) says which pair of members the key names, or that it is rejected.
 """
 from __future__ import annotations
 
@@ -14,7 +21,9 @@ PROP = "C20"
 EXHAUSTIVE = True  # over members x spellings; the non-member stream is sampled
 RULE = (
     "every member of every enum x {value, upper, lower, title-case, value+' ', value[:-1]} through every parser, "
-    "every documented alias, every string-or-enum call site in both spellings, plus seeded random ASCII strings; "
+    "every documented alias, every string-or-enum call site in both spellings (Shape, TransformKey / HomogeneousMatrix, the task of "
+    "LabelConverter / FrameID.from_task, and EVERY key-taking method of TransformDict, enumerated from the class: get, [], in, "
+    "load_key, transform, []=, del, anything new generically; key as pair / list / TransformKey), plus seeded random ASCII strings; "
     "a case is non-trivial when it reaches a parser with a string (all are); distinct = distinct (parser, string)"
 )
 THEOREMS = [
@@ -60,6 +69,127 @@ def _spellings(v: str):
     return [v, v.upper(), v.lower(), v.title(), v + " ", v[:-1], " " + v, v + "_x"]
 
 
+# ---- every key-taking access path of TransformDict (a string-or-enum call site each) -------------------------------
+# Enumerated from the class, so that a newly added method is picked up: the ones below are driven the way they are
+# meant to be called; methods that take no key are listed; anything else is tried with the key as its only argument.
+KEY_PATHS = ("get", "__getitem__", "__contains__", "load_key", "transform", "__setitem__", "__delitem__", "pop", "setdefault")
+NO_KEY_PATHS = {"keys", "items", "values", "__iter__", "__len__", "__repr__", "__str__", "__bool__", "copy", "__copy__", "__deepcopy__",
+                "__reduce__", "__reduce_ex__", "__getstate__", "__setstate__", "__eq__", "__ne__", "__hash__", "__init__",
+                "__init_subclass__", "__class_getitem__", "__sizeof__", "__reversed__", "clear", "popitem", "update"}
+KEY_FORMS = ("tuple", "list", "key")
+
+
+def _key_paths():
+    from perception_eval.common.transform import TransformDict
+
+    base = set(dir(object))
+    out = []
+    for n in dir(TransformDict):
+        if n in base or n.startswith("_TransformDict__") or n in NO_KEY_PATHS or not callable(getattr(TransformDict, n, None)):
+            continue
+        out.append(n)
+    return out
+
+
+def _canon_any(r):
+    from perception_eval.common.schema import FrameID
+    from perception_eval.common.transform import HomogeneousMatrix, TransformKey
+
+    def fn(f):
+        return f.name if isinstance(f, FrameID) else repr(f)
+
+    if isinstance(r, HomogeneousMatrix):
+        return {"matrix": [[round(float(v), 9) for v in row] for row in r.matrix.tolist()], "src": fn(r.src), "dst": fn(r.dst)}
+    if isinstance(r, TransformKey):
+        return {"key": True, "src": fn(r.src), "dst": fn(r.dst)}
+    if r is None or isinstance(r, (bool, int, str)):
+        return {"value": r}
+    try:
+        import numpy as np
+
+        return {"array": [round(float(v), 9) for v in np.asarray(r, dtype=float).ravel()]}
+    except Exception:  # noqa
+        return {"other": type(r).__name__}
+
+
+def _call_path(reg, path, key, marker):
+    """one call of the access path `path` with `key`; what is observed: the answer and the keys held afterwards"""
+    from perception_eval.common.transform import TransformKey
+
+    try:
+        if path == "get":
+            r = reg.get(key)
+        elif path == "__getitem__":
+            r = reg[key]
+        elif path == "__contains__":
+            r = key in reg
+        elif path == "load_key":
+            r = reg.load_key(key.src, key.dst) if isinstance(key, TransformKey) else reg.load_key(*key)
+        elif path == "transform":
+            r = reg.transform(key, (1.0, -2.0, 0.5))
+        elif path == "__setitem__":
+            reg[key] = marker
+            r = None
+        elif path == "__delitem__":
+            del reg[key]
+            r = None
+        elif path == "setdefault":
+            r = reg.setdefault(key, marker)
+        else:  # pop and anything unknown: the key is the only argument
+            r = getattr(reg, path)(key)
+        ans = _canon_any(r)
+    except Exception as e:  # noqa
+        ans = {"err": type(e).__name__}
+    return {"ans": ans, "held": _held(reg)}
+
+
+def _held(reg):
+    try:
+        return sorted([k.src.name, k.dst.name, _canon_any(v)["matrix"][0][3]] for k, v in reg.items())
+    except Exception as e:  # noqa
+        return {"err": type(e).__name__}
+
+
+def _run_key_site(case):
+    from perception_eval.common.schema import FrameID
+    from perception_eval.common.transform import HomogeneousMatrix, TransformDict, TransformKey
+
+    a, b = FrameID[case["src"]], FrameID[case["dst"]]
+    other = next(m for m in FrameID.__members__.values() if m not in (a, b))
+    sp = case["spelling"]
+
+    def registry():
+        ms = [HomogeneousMatrix((4.0, 0.0, -1.0), (0.0, 1.0, 0.0, 0.0), b, other)]
+        if case["registered"]:
+            ms.append(HomogeneousMatrix((1.0, 2.0, 3.0), (0.6, 0.0, 0.0, 0.8), a, b))
+        return TransformDict(ms)
+
+    marker = HomogeneousMatrix((7.0, 7.0, 7.0), (1.0, 0.0, 0.0, 0.0), a, b)
+
+    def spelled():
+        if sp == "bad":
+            ks, kd = (a.value + "_x", b) if case.get("bad_side", 0) == 0 else (a, b.value + "_x")
+        else:
+            ks, kd = _arg(a, sp, 0), _arg(b, sp, 1)
+        return TransformKey(ks, kd) if case["form"] == "key" else [ks, kd] if case["form"] == "list" else (ks, kd)
+
+    def guarded(mk):
+        try:
+            key = mk()
+        except Exception as e:  # noqa  (a TransformKey cannot be made of a name that is no frame)
+            return {"ans": {"err": type(e).__name__}, "held": None, "key_err": True}
+        return _call_path(registry(), case["path"], key, marker)
+
+    got = guarded(spelled)
+    ref = guarded(lambda: TransformKey(a, b))
+    ans = got["ans"]
+    return {"same": got == ref, "spelled": got, "member": ref if got != ref else None,
+            "src": ans.get("src"), "dst": ans.get("dst"), "err_kind": ans.get("err"),
+            "positive": bool("matrix" in ans or "key" in ans or "array" in ans or ans.get("value") not in (None, False)
+                             or (got["held"] is not None and got["held"] != _held(registry()))),
+            "signature_unknown": case["path"] not in KEY_PATHS and ref["ans"].get("err") == "TypeError"}
+
+
 def corpus():
     cs = []
     # F12 (fixed): the four parsers that returned names / an unparsable value
@@ -99,6 +229,19 @@ def generate(rng, tier):
             for sp in ("str", "upper", "member", "mixed"):
                 cases.append({"kind": "transform_key", "src": a.name, "dst": b.name, "spelling": sp})
     cases.append({"kind": "transform_key", "src": "MAP", "dst": "NOPE", "spelling": "bad"})
+    # every key-taking access path of the registry, every frame as source, all spellings, key as pair / list / TransformKey
+    paths = _key_paths()
+    for a in fr:
+        for b in fr if tier == "thorough" else rng.sample(fr, 3):
+            if a is b:
+                continue
+            for path in paths:
+                for sp in ("str", "upper", "member", "mixed"):
+                    for form in KEY_FORMS if tier == "thorough" else [rng.choice(KEY_FORMS)]:
+                        cases.append({"kind": "key_site", "path": path, "src": a.name, "dst": b.name, "spelling": sp, "form": form,
+                                      "registered": rng.random() < 0.7})
+                cases.append({"kind": "key_site", "path": path, "src": a.name, "dst": b.name, "spelling": "bad", "form": rng.choice(KEY_FORMS),
+                              "bad_side": rng.randrange(2), "registered": rng.random() < 0.7})
     # further string-or-enum call sites: the evaluation task of LabelConverter and of FrameID.from_task
     from perception_eval.common.evaluation_task import EvaluationTask
 
@@ -160,6 +303,8 @@ def run_impl(case):
             ok = k1 == k2 and hash(k1) == hash(k2) and k1.src is a and k1.dst is b and h.src is a and h.dst is b
             return {"src": k1.src.name if isinstance(k1.src, FrameID) else None,
                     "dst": k1.dst.name if isinstance(k1.dst, FrameID) else None, "same": bool(ok)}
+        if k == "key_site":
+            return _run_key_site(case)
         if k == "task_site":
             from perception_eval.common.evaluation_task import EvaluationTask
             from perception_eval.common.label import LabelConverter
@@ -197,6 +342,12 @@ def model_requests(case, out):
 
     if k == "shape_arg":
         return [{"op": "shape_arg", "arg": marg(ShapeType[case["member"]], case["spelling"])}]
+    if k == "key_site":
+        a, b = FrameID[case["src"]], FrameID[case["dst"]]
+        if case["spelling"] == "bad":
+            src, dst = ({"str": a.value + "_x"}, {"member": b.name}) if case.get("bad_side", 0) == 0 else ({"member": a.name}, {"str": b.value + "_x"})
+            return [{"op": "transform_key", "src": src, "dst": dst}]
+        return [{"op": "transform_key", "src": marg(a, case["spelling"], 0), "dst": marg(b, case["spelling"], 1)}]
     if k == "transform_key":
         if case["spelling"] == "bad":
             return [{"op": "transform_key", "src": {"str": "map"}, "dst": {"str": "nope"}}]
@@ -222,6 +373,17 @@ def compare(case, out, resps):
         if "err" in out or "err" in r:
             return None if out.get("err") == r.get("err") else f"impl {out} != model {r}"
         return None if (out.get("src"), out.get("dst")) == (r.get("src"), r.get("dst")) else f"impl {out} != model {r}"
+    if k == "key_site":
+        # the model knows how the key is read: the pair of members, or ValueError before anything is looked up
+        if out.get("signature_unknown"):
+            return None
+        if "err" in r:
+            if case["path"] in KEY_PATHS and out.get("err_kind") != r["err"]:
+                return f"{case['path']}: the key is rejected by the model with {r['err']}, impl {out['spelled']}"
+            return None
+        if out.get("src") is not None and (out.get("src"), out.get("dst")) != (r.get("src"), r.get("dst")):
+            return f"{case['path']}: impl answered for {out.get('src')}->{out.get('dst')}, the key names {r.get('src')}->{r.get('dst')}"
+        return None
 
 
 def oracle(case, out):
@@ -261,6 +423,13 @@ def oracle(case, out):
         if case["spelling"] == "bad":
             return None if "err" in out else "TransformKey('map','nope') accepted"
         return None if out.get("same") else f"TransformKey/HomogeneousMatrix differ between spellings: {out}"
+    if k == "key_site":
+        if out.get("signature_unknown"):
+            return None
+        what = f"TransformDict.{case['path']} with the key ({case['src']}, {case['dst']}) spelled {case['spelling']!r} as {case['form']}"
+        if case["spelling"] == "bad":
+            return None if not out.get("positive") else f"{what}: a name that is no frame was accepted: {out['spelled']}"
+        return None if out.get("same") else f"{what} gives {out['spelled']}, with TransformKey(member, member) {out['member']}"
     if k == "task_site":
         return None if out.get("same") else (f"{case['site']} behaves differently for the task given as string "
                                              f"{case['task'].lower()!r} and as enum member: {out.get('str')} vs {out.get('enum')}")
@@ -271,6 +440,11 @@ def branches(case, out):
     if k == "parse":
         res = "member" if "member" in out else "err" if "err" in out else "none" if "none" in out else "other"
         return [f"parse:{case['parser']}:{res}"]
+    if k == "key_site":
+        ans = out.get("spelled", {}).get("ans", {})
+        res = "err:" + ans["err"] if "err" in ans else "matrix" if "matrix" in ans else "key" if "key" in ans else "array" if "array" in ans else repr(ans.get("value"))
+        return [f"key_site:{case['path']}:{case['spelling']}:{res}", f"key_site:form:{case['form']}"] + (
+            [f"key_site:undriven:{case['path']}"] if out.get("signature_unknown") else [])
     return [f"{k}:{case.get('spelling')}:{'err' if 'err' in out else 'ok'}"]
 
 
